@@ -73,15 +73,21 @@ def CertOK (c : Cfg) (blk : Block) (cs : List CMsg) : Prop :=
     ∃ p, BlockProof.generate cs true = some p ∧
       BlockProof.validate ⟨false, some blk, some p, c.inst, c.members, false⟩ = .ok
 
+/-- the VIEW_CHANGE passes everything `handleViewChange` checks before logging it (`C11.VoteChecked`), at
+every node of this term -/
+def VoteGood (c : Cfg) (vc : VCMsg) : Prop := ∀ peer : Node, CfgSim peer.cfg c → C11.VoteChecked peer vc
+
 /-- what a block of effects may contain: commit callbacks whose block commits to the certified hash,
 and NEW_VIEWs every correct peer accepts as a certificate -/
 def OutsOK (c : Cfg) (l : List Out) : Prop :=
   (∀ blk cs, Out.commit blk cs ∈ l → blk.hash = commitHash cs)
   ∧ (∀ rs nv, Out.send rs (.newView nv) ∈ l → NVGood c nv)
   ∧ (∀ blk cs, Out.commit blk cs ∈ l → CertOK c blk cs)
+  ∧ (∀ rs vc, Out.send rs (.viewChange vc) ∈ l → VoteGood c vc)
 
 theorem outsOK_nil (c : Cfg) : OutsOK c [] := by
-  refine ⟨?_, ?_, ?_⟩
+  refine ⟨?_, ?_, ?_, ?_⟩
+  · intro _ _ h; cases h
   · intro _ _ h; cases h
   · intro _ _ h; cases h
   · intro _ _ h; cases h
@@ -89,7 +95,8 @@ theorem outsOK_nil (c : Cfg) : OutsOK c [] := by
 theorem outsOK_append {c : Cfg} {l1 l2 : List Out} (h1 : OutsOK c l1) (h2 : OutsOK c l2) : OutsOK c (l1 ++ l2) :=
   ⟨fun blk cs hm => (List.mem_append.mp hm).elim (h1.1 blk cs) (h2.1 blk cs),
    fun rs nv hm => (List.mem_append.mp hm).elim (h1.2.1 rs nv) (h2.2.1 rs nv),
-   fun blk cs hm => (List.mem_append.mp hm).elim (h1.2.2 blk cs) (h2.2.2 blk cs)⟩
+   fun blk cs hm => (List.mem_append.mp hm).elim (h1.2.2.1 blk cs) (h2.2.2.1 blk cs),
+   fun rs vc hm => (List.mem_append.mp hm).elim (h1.2.2.2 rs vc) (h2.2.2.2 rs vc)⟩
 
 theorem cfgSim_eq {c d : Cfg} (h : CfgSim c d) : c = { d with me := c.me } := by
   obtain ⟨h1, h2, h3⟩ := h
@@ -293,15 +300,52 @@ every correct peer whose view is not higher** -/
 theorem blk_votes (hwf : WF C) {e : Event} {spi0 : List Spi} {i : Nat} {a b : Node} {l : List Out} {g : List LEv} {T : List LEv} {H : List Ev}
     (hb : Blk e spi0 a b l g) (hgate : Gate (C.cfg i) e) (hmem : ∃ m ∈ C.ms, m.id = i)
     (hc : Core C H i a T) (hua : Univ a) (hbo : BlocksOK a) (hov : OwnVotesOK a) :
-    OwnVotesOK b ∧ ∀ rs nv, Out.send rs (.newView nv) ∈ l → NVGood a.cfg nv := by
+    OwnVotesOK b ∧ (∀ rs nv, Out.send rs (.newView nv) ∈ l → NVGood a.cfg nv)
+      ∧ ∀ rs vc, Out.send rs (.viewChange vc) ∈ l → VoteGood a.cfg vc := by
+  -- the vote a node builds on timeout passes the checks of `handleViewChange` (at the node itself)
+  have own_vote_checked : ∀ (vc : VCMsg), vc = ownVote a → (∀ pv, a.prepared = some pv → pv < a.view) → C11.VoteChecked a vc := by
+    intro vc hvc hpv
+    have hp : vc.c.header.proof = voteProof a := by rw [hvc]; rfl
+    have hbk : vc.block = voteBlock a := by rw [hvc]; rfl
+    have hme : isMember a.cfg a.cfg.me = true := by rw [hc.cfg]; exact isMember_of_mem C i hmem
+    have hvalid : isViewChangeValid a (C09.voteOnTimeout a).c = true :=
+      C11.own_vote_is_valid_for_peers a a rfl hme hua.prepares hua.proposals
+        (fun pv hpr => ⟨hpv pv hpr, fun pm hpm hvw hs => by have := hua.ownNL pm hpm hs; rw [hvw] at this; exact this⟩)
+        (fun ppm hm => (hua.clean.pps ppm hm).1) (fun pm hm => (hua.clean.prepares pm hm).1)
+    rw [← ownVote_eq, ← hvc] at hvalid
+    refine ⟨hvalid, ?_, ?_⟩
+    · rintro ⟨h1, h2⟩
+      rcases vote_payload hc.ginv hc.prepBlock with ⟨_, hn, _⟩ | ⟨pv, p', b', ppm, _, _, _, hsb, hbs, _⟩
+      · rw [hp, hn] at h2; cases h2
+      · rw [hbk, hsb] at h1
+        rw [Option.isNone_iff_eq_none] at h1
+        rw [h1] at hbs; cases hbs
+    · intro hsome
+      rcases vote_payload hc.ginv hc.prepBlock with ⟨_, _, hn⟩ | ⟨pv, p', b', ppm, _, hex, hs, hsb, hbs, hg, _, e2, _, _⟩
+      · rw [hbk, hn] at hsome; cases hsome
+      · have hb' : b' = ppm.block := by
+          obtain ⟨ppm2, _, hg2, _, _, _, _, _, e5⟩ := extractProof_shape a pv p' b' hex
+          rw [hg] at hg2
+          rw [e5, Option.some.inj hg2]
+        obtain ⟨hin, _, _⟩ := getPP_spec hg
+        rw [hbk, hsb, hp, hs]
+        cases hbb : b' with
+        | none => rw [hbb] at hbs; cases hbs
+        | some bk =>
+          have := hbo ppm hin bk (by rw [← hb', hbb])
+          simp only [commitmentOk, proofHash, beq_iff_eq]
+          rw [this, e2]
   cases hb with
   | quiet hq hs hl =>
-    refine ⟨ownVotesOK_congr a _ hq.cfg (by rw [hs]) hov, ?_⟩
-    intro rs nv hm
-    have := hl _ hm
-    simp [stmtOf] at this
+    refine ⟨ownVotesOK_congr a _ hq.cfg (by rw [hs]) hov, ?_, ?_⟩
+    · intro rs nv hm
+      have := hl _ hm
+      simp [stmtOf] at this
+    · intro rs vc hm
+      have := hl _ hm
+      simp [stmtOf] at this
   | log op he =>
-    refine ⟨?_, fun _ _ hm => by cases hm⟩
+    refine ⟨?_, (fun _ _ hm => by cases hm), (fun _ _ hm => by cases hm)⟩
     cases op with
     | pp m => exact ownVotesOK_congr a _ rfl (storePP_vcs _ _) hov
     | prepare m => exact ownVotesOK_congr a _ rfl (storePrepare_vcs _ _) hov
@@ -315,50 +359,34 @@ theorem blk_votes (hwf : WF C) {e : Event} {spi0 : List Spi} {i : Nat} {a b : No
         have : x.c.sender = mySig a.cfg := hsig
         rw [this, hc.cfg]; rfl
   | accept ppm f rcpt hh hv' hnone hnl hlock hsrc hval =>
-    refine ⟨ownVotesOK_congr a _ rfl ?_ hov, fun _ _ hm => by simp at hm⟩
+    refine ⟨ownVotesOK_congr a _ rfl ?_ hov, (fun _ _ hm => by simp at hm), (fun _ _ hm => by simp at hm)⟩
     show ((a.store.storePP ppm).storePrepare _).vcs = _
     rw [storePrepare_vcs, storePP_vcs]
   | prepared v hash rcpt hv' hnot hpp hproof =>
-    exact ⟨ownVotesOK_congr a _ rfl (storeCommit_vcs _ _) hov, fun _ _ hm => by simp at hm⟩
-  | late h v hash rcpt hq => exact ⟨hov, fun _ _ hm => by simp at hm⟩
+    exact ⟨ownVotesOK_congr a _ rfl (storeCommit_vcs _ _) hov, (fun _ _ hm => by simp at hm), (fun _ _ hm => by simp at hm)⟩
+  | late h v hash rcpt hq => exact ⟨hov, (fun _ _ hm => by simp at hm), (fun _ _ hm => by simp at hm)⟩
   | decide blk cs h v hash hq hs hcs hcq hpp =>
-    exact ⟨ownVotesOK_congr a _ hq.cfg (by rw [hs]) hov, fun _ _ hm => by simp at hm⟩
-  | voteSend vc rcpt hv' hp hpv hown => exact ⟨hov, fun _ _ hm => by simp at hm⟩
+    exact ⟨ownVotesOK_congr a _ hq.cfg (by rw [hs]) hov, (fun _ _ hm => by simp at hm), (fun _ _ hm => by simp at hm)⟩
+  | voteSend vc rcpt hv' hp hpv hown hvc =>
+    refine ⟨hov, (fun _ _ hm => by simp at hm), ?_⟩
+    intro rs vc' hm
+    simp only [List.mem_singleton, Out.send.injEq, Message.viewChange.injEq] at hm
+    rw [hm.2]
+    obtain ⟨c1, c2, c3⟩ := own_vote_checked vc hvc hpv
+    intro peer hsim
+    exact ⟨by rw [isViewChangeValid_sim peer a hsim]; exact c1, c2, c3⟩
   | voteStore vc hv' hp hown hpv hbk hvc =>
-    refine ⟨?_, fun _ _ hm => by cases hm⟩
+    refine ⟨?_, (fun _ _ hm => by cases hm), (fun _ _ hm => by cases hm)⟩
     intro x hx hsig
     rcases mem_storeVC hx with hx' | rfl
     · exact hov x hx' hsig
-    · have hme : isMember a.cfg a.cfg.me = true := by rw [hc.cfg]; exact isMember_of_mem C i hmem
-      have hvalid : isViewChangeValid a (C09.voteOnTimeout a).c = true :=
-        C11.own_vote_is_valid_for_peers a a rfl hme hua.prepares hua.proposals
-          (fun pv hpr => ⟨hpv pv hpr, fun pm hpm hvw hs => by have := hua.ownNL pm hpm hs; rw [hvw] at this; exact this⟩)
-          (fun ppm hm => (hua.clean.pps ppm hm).1) (fun pm hm => (hua.clean.prepares pm hm).1)
-      rw [← ownVote_eq, ← hvc] at hvalid
-      refine ⟨hvalid, ?_, ?_⟩
-      · rintro ⟨h1, h2⟩
-        rcases vote_payload hc.ginv hc.prepBlock with ⟨_, hn, _⟩ | ⟨pv, p', b', ppm, _, _, _, hsb, hbs, _⟩
-        · rw [hp, hn] at h2; cases h2
-        · rw [hbk, hsb] at h1
-          rw [Option.isNone_iff_eq_none] at h1
-          rw [h1] at hbs; cases hbs
-      · intro hsome
-        rcases vote_payload hc.ginv hc.prepBlock with ⟨_, _, hn⟩ | ⟨pv, p', b', ppm, _, hex, hs, hsb, hbs, hg, _, e2, _, _⟩
-        · rw [hbk, hn] at hsome; cases hsome
-        · have hb' : b' = ppm.block := by
-            obtain ⟨ppm2, _, hg2, _, _, _, _, _, e5⟩ := extractProof_shape a pv p' b' hex
-            rw [hg] at hg2
-            rw [e5, Option.some.inj hg2]
-          obtain ⟨hin, _, _⟩ := getPP_spec hg
-          rw [hbk, hsb, hp, hs]
-          cases hbb : b' with
-          | none => rw [hbb] at hbs; cases hbs
-          | some bk =>
-            have := hbo ppm hin bk (by rw [← hb', hbb])
-            simp only [commitmentOk, proofHash, beq_iff_eq]
-            rw [this, e2]
+    · exact own_vote_checked x hvc hpv
   | propose ppm f o hh hv' hnone hlnv hf ho hown hsrc hreq hblk hmsg =>
-    refine ⟨ownVotesOK_congr a _ rfl (storePP_vcs _ _) hov, ?_⟩
+    refine ⟨ownVotesOK_congr a _ rfl (storePP_vcs _ _) hov, ?_, ?_⟩
+    rotate_left
+    · intro rs vc hm
+      simp only [List.mem_singleton] at hm
+      rcases hmsg with ⟨rcpt, ho'⟩ | ⟨rcpt, nvm, h, ho', _⟩ <;> (rw [ho'] at hm; cases hm)
     intro rs nv hm
     simp only [List.mem_singleton] at hm
     rcases hmsg with ⟨rcpt, ho'⟩ | ⟨rcpt, nvm, h, ho', hpp, hvotes, hexact, hlead, hq, hsel⟩
@@ -485,7 +513,7 @@ theorem blk_body (hwf : WF C) {e : Event} {spi0 : List Spi} {i : Nat} {a b : Nod
     (hc : Core C H i a T) (hua : Univ a) (hub : Univ b) (hbody : Body a) :
     Body b ∧ OutsOK a.cfg l := by
   obtain ⟨b1, b2, b3⟩ := blk_blocks hwf hb hgate hA2 hc hub hbody.blocks hbody.vcblocks
-  obtain ⟨v1, v2⟩ := blk_votes hwf hb hgate hmem hc hua hbody.blocks hbody.ownVotes
-  exact ⟨⟨b1, b2, v1⟩, b3, v2, blk_cert hwf hb hc hua hbody.blocks⟩
+  obtain ⟨v1, v2, v3⟩ := blk_votes hwf hb hgate hmem hc hua hbody.blocks hbody.ownVotes
+  exact ⟨⟨b1, b2, v1⟩, b3, v2, blk_cert hwf hb hc hua hbody.blocks, v3⟩
 
 end LeanHelix.Net
